@@ -66,6 +66,7 @@ Inductive err :=
 | EOther                                      (* an adapter's own exception *)
 | EGhostReplace                               (* replacement of an already detached node: ValueError from insert_after *)
 | EValueRange | EOpsetConflict                (* ValueError of convert_version / _get_onnx_opset_version *)
+| ERefused                                    (* repaired variant only (Model2.v): VersionConverterError raised by the pre-check *)
 | EOutOfFuel.                                 (* model artefact, excluded in every theorem *)
 
 Definition is_vce (e : err) : bool :=
